@@ -292,6 +292,50 @@ def run_case(case):
                     counters["updates_on_derived_handles"] = counters.get("updates_on_derived_handles", 0) + 1
         except Exception as e:
             res["failures"].append({"kind": "update_on_a_derived_handle_raised", "target": target, **C.exc_shape(e)})
+        # ---- an update made on a handle whose decoded key-value view has (or has not) been looked at before: the view the handle shows
+        # afterwards is the stored list, decoded - whatever form (str / bytes) the caller's keys have
+        try:
+            from fastparquet.util import update_custom_metadata
+            for looked in (True, False):
+                for key_form in ("bytes", "str"):
+                    h = fastparquet.ParquetFile(path)
+                    stored = [(b(kv.key), b(kv.value)) for kv in (h.fmd.key_value_metadata or [])]
+                    mine = [k for k, _ in stored if k not in (b"pandas", b"PANDAS_ATTRS")]
+                    try:
+                        [k.decode("utf8") for k in mine]
+                    except UnicodeDecodeError:
+                        continue
+                    if looked:
+                        h.key_value_metadata
+                    form = (lambda k: k) if key_form == "bytes" else (lambda k: k.decode("utf8"))
+                    upd = {form(b"view-added-%s" % key_form.encode()): "new"}
+                    expect = dict(stored)
+                    expect[b"view-added-%s" % key_form.encode()] = b"new"
+                    if mine:
+                        k_rm = mine[case["seed"] % len(mine)]
+                        upd[form(k_rm)] = None
+                        expect.pop(k_rm, None)
+                    if len(mine) > 1:
+                        k_rp = mine[(case["seed"] + 1) % len(mine)]
+                        upd[form(k_rp)] = "replaced through the handle"
+                        expect[k_rp] = b"replaced through the handle"
+                    update_custom_metadata(h, upd)
+                    view = h.key_value_metadata
+                    got_view = {}
+                    for k_, v_ in view.items():
+                        got_view.setdefault(b(k_), []).append(b(v_))
+                    dup = sorted(k_ for k_, vs in got_view.items() if len(vs) > 1)
+                    flat = {k_: vs[-1] for k_, vs in got_view.items()}
+                    undecoded = [repr(k_)[:30] for k_ in view if isinstance(k_, bytes)]
+                    if dup or flat != expect or undecoded:
+                        res["failures"].append({"kind": "view_of_the_updated_handle_differs_from_its_stored_keys", "looked_before": looked, "key_form": key_form,
+                                                "target": target, "twice": [k_.decode("utf8", "replace")[:20] for k_ in dup][:3], "undecoded_keys": undecoded[:3],
+                                                "extra": sorted(k_.decode("utf8", "replace")[:20] for k_ in set(flat) - set(expect))[:3],
+                                                "missing": sorted(k_.decode("utf8", "replace")[:20] for k_ in set(expect) - set(flat))[:3],
+                                                "wrong_value": sorted(k_.decode("utf8", "replace")[:20] for k_ in set(expect) & set(flat) if expect[k_] != flat[k_])[:3]})
+                    counters["views_after_update_on_handle"] = counters.get("views_after_update_on_handle", 0) + 1
+        except Exception as e:
+            res["failures"].append({"kind": "update_on_a_looked_at_handle_raised", "target": target, **C.exc_shape(e)})
         res["outcome"] = "ok"
         res["nontrivial"] = done > 0
         res["features"] = sorted(feats)
